@@ -16,7 +16,7 @@ CHECKS = {
               "liveness visit/do_visit/visit_block with both fixpoint loops, exposed_uses) are verified function by "
               "function against a gen/kill dataflow theory for ALL ASTs (structural induction, loop invariants), "
               "which is what the faithfulness of If/Loop translation rests on; no bound on program size, nesting or names; "
-              "_compute_constant_if_conditions. Bounded stand-ins: If/Loop translation alignment for every set-iteration order "
+              "_compute_constant_if_conditions (not for names assigned in the body nor for parameters); the loop of autocast.cast_inputs for argument lists of any length (C12). Bounded stand-ins: If/Loop translation alignment for every set-iteration order "
               "(<= 3 live variables); eager Tensor.__getitem__ (C11)."),
         note=("Assumed: ONNX operator semantics at run time; _translate_expr per op; onnx_ir serde; _lhs_vars contract "
               "(body not verified); Python ast yields trees; termination of fixpoints; pyvc encoder and z3 trusted."),
@@ -35,15 +35,18 @@ CHECKS["C11"] = dict(
           "(numpy-backed; same arithmetic, covered only by the native replays); pyvc and z3 trusted."),
     design="DESIGN.md section 4 C11")
 CHECKS["C12"] = dict(
-    text=("Proof of K(C12): autocast._get_dtype/_promotable (bool before int, INT64/FLOAT/BOOL), Converter._emit_const (one Constant per "
-          "literal occurrence, fresh name, castable) and GraphBuilder._get_or_create_constant (a cache hit returns a tensor bit-equal "
-          "to what a miss would create; Python ==/hash on bool/int/float keys modelled with IEEE-754 doubles in z3, so 0.0/-0.0 and "
-          "True/1/1.0 coincidences are decided for all values). cast_inputs and BuilderBase._cast_inputs are checked against one "
-          "`promote` specification with symbolic type-variable names / variadic flags for signatures up to 3 formals and 4 arguments "
-          "(reported as bounded stand-ins, not counted as discharged)."),
-    note=("Assumed: schema convention that a type string without '(' is a type variable; ir.tensor/np.array conversion (onnx_ir, numpy); "
-          "well-typedness (operands sharing a type variable share a type) for first-vs-last binding; pyvc and z3 trusted."),
-    design="DESIGN.md section 4 C12")
+    text=("Proof of K(C12): autocast.cast_inputs (converter + eager) and BuilderBase._cast_inputs (builder) against one `promote` specification for "
+          "signatures and argument lists of ANY length (inductive invariant over the appended args_typevars list and the type_bindings dict keyed "
+          "by symbolic strings; the bound type is the type of SOME typed sibling sharing the type variable, no binding only if there is none, "
+          "heterogeneous variadic tails unbound, too many arguments refused, None passes through); autocast._get_dtype/_promotable (bool before "
+          "int, INT64/FLOAT/BOOL), Converter._emit_const (one Constant per literal occurrence, fresh name, castable) and "
+          "GraphBuilder._get_or_create_constant (a cache hit returns a tensor bit-equal to what a miss would create; Python ==/hash on "
+          "bool/int/float keys modelled with IEEE-754 doubles, so 0.0/-0.0 and True/1/1.0 coincidences are decided for all values). Small "
+          "concrete-length instances of cast_inputs remain as bounded cross-checks."),
+    note=("Assumed: schema convention that a type string without '(' is a type variable; precondition m >= 1 formal inputs; the callbacks "
+          "get_type_info / cast / _input_to_ir_value are abstract in the any-length proof (own contracts: static_cast_inputs, cast_pyvalue, "
+          "input_to_ir_value); ir.tensor/np.array conversion (onnx_ir, numpy); pyvc and z3 trusted."),
+    design="DESIGN.md sections 4 C12 and 13")
 
 CHECKS["C17"] = dict(
     text=("Exhaustive: every method of every generated opset class (all domains/versions in all_opsets) is executed from its real "
@@ -52,7 +55,7 @@ CHECKS["C17"] = dict(
           "each attribute forwarded under its own name, keyword-only attribute parameters with defaults equal to the schema defaults; "
           "every (class, operator) pair through the MRO and the dynamic lookups (__getitem__/__contains__) agree with the registry. "
           "The obligations are ground after enumerating the finite registry and are decided by evaluation (exhaustive: true). "
-          "_prepare_inputs trimming is a bounded stand-in (<= 5 inputs)."),
+          "Opset._prepare_inputs is proved for any number of inputs (while-loop invariant: exactly the maximal all-None suffix is dropped, falsy literals kept)."),
     note="Assumed: onnx.defs of the installed onnx is the data oracle; Op.__call__/evaluator covered by C01; pyvc interpreter trusted.",
     design="DESIGN.md section 4 C17",
     technique="contract-based: uniform symbolic execution of the real generated methods (pyvc interpreter) + exhaustive evaluation of ground obligations against the onnx.defs registry")
@@ -97,7 +100,8 @@ CHECKS["C15"] = dict(
           "ModelProto (record of all 11 top-level fields with provenance tokens) and on an abstract ir.Model; obligations per field: the "
           "proto result equals the serialization of the IR model obtained by applying exactly the passes of the IR form (same passes, "
           "options, order) to deserialize(argument); in-place APIs leave the argument equal to it in every field, functional APIs do not "
-          "write their argument; rewrite with an empty rule list returns its argument."),
+          "write their argument (also not through deserialized initializers, which are views of the caller's TensorProtos: one known finding); "
+          "rewrite with an empty rule list returns its argument."),
     note=("Residual, not claimed: 'deserializing and re-serializing through onnxscript.ir loses no information' is a property of the onnx_ir "
           "package (onnxscript/ir/__init__.py re-exports it); protobuf Clear/CopyFrom semantics assumed."),
     design="DESIGN.md section 4 C15")
@@ -158,20 +162,29 @@ CHECKS["C07"] = dict(
     note="Assumed: ir.convenience.replace_nodes_and_values / replace_all_uses_with do what their docstrings say (onnx_ir); as_function extraction (_copy_for_function) not under contract.",
     design="DESIGN.md section 4 C07 and 9")
 CHECKS["C09"] = dict(
-    text=("For every binding of the symbolic dims and every dimension value: add on shape values of any length (proof); bounded stand-ins "
-          "(ranks <= 2, every dim kind static/named/unknown): reshape and expand become Identity only if the target equals the runtime shape, "
-          "abs only if every element is non-negative, gather/shape/size record exactly the indexed/sliced dims, and "
-          "_check_expand_removable (all three strategies) guarantees same output rank and dims with and without the Expand."),
-    note=("Assumed: shape annotations are sound for every accepted input (the property's stated assumption); ONNX broadcasting/Reshape/Expand "
-          "documentation; MaterializeReshapeShape, ReshapeReshape, Flatten2Reshape, collapse-slices and ScatterND rules not under contract."),
-    design="DESIGN.md section 4 C09 and 9")
+    text=("Proof, for every binding of the symbolic dims, EVERY RANK and every dim kind (static / named / unknown): _check_expand_removable "
+          "(strategies 1-3), _check_dims_sufficient, _compute_broadcast_shape/_dim keep the output rank and extents of BinaryOp(Expand(x), y) "
+          "(shapes of symbolic rank, inductive loop invariants stated at an arbitrary Skolem position); the partial evaluators reshape / expand "
+          "(Identity only if the target equals the run-time shape), abs (only if every entry is >= 0), shape (Shape-15 start/end clamping for all "
+          "integers) on sym values of any length; add on shape values of any length. Bounded stand-ins (ranks <= 2-3): gather, concat, size, "
+          "squeeze, identity, _ir_utils.same_shape, ExpandIdentity, ScatterAll*, MaterializeReshapeShape, collapse_slice, SqueezeReshape, "
+          "Flatten2Reshape, ReshapeReshape."),
+    note=("Assumed: shape annotations are sound for every accepted input (the property's stated assumption); ONNX broadcasting / Reshape / Expand / "
+          "Shape documentation; onnx_ir Shape / SymbolicDim (interpreted from source); loop invariants quantifier-free at a Skolem position, "
+          "all()/any()/== over symbolic-length sequences used at that position only; termination not proved; pyvc and z3 trusted."),
+    design="DESIGN.md sections 4 C09, 9 and 13")
 CHECKS["C13"] = dict(
     text=("Proof (z3 string theory) that _cleanup_variable_name always returns a Python identifier that is not a keyword; ground obligations by "
           "exhaustive evaluation: operator table of the exporter vs the converter's primop_map, onnx_type_to_onnxscript_repr -> eval -> "
           "to_type_proto identity on every tensor element type x shape pattern, constant literals (nan/inf/negative/0-d/1-d) evaluate back; "
+          "structural contracts on the emitted text, decided by running the real exporter functions and parsing what they emit: operator "
+          "rendering, attribute text, signature / remapping scope, If output binding, the loop-carried protocol of _translate_loop (state and "
+          "condition initialised before, not overwritten inside, updated at the end of the body, outputs after the loop), initializer naming "
+          "under a non-idempotent renamer, distinct Python names inside a function, valid-Python layout for every skip_initializers setting; "
           "bounded: _make_short_name_mapper injective/stable. Injectivity of clean-up is a known finding."),
-    note="Residual, not claimed: the emitted program text as a whole (_translate_graph/_translate_node formatting, If/Loop SSA undoing); exec-and-compare is outside this family.",
-    design="DESIGN.md section 4 C13 and 9")
+    note=("Residual, not claimed: the emitted program text as a whole beyond the structural contracts above; exec-and-compare of whole models is "
+          "outside this family (used only in the native replays). _translate_graph_body's per-node statement order is an assumed contract of the loop protocol."),
+    design="DESIGN.md sections 4 C13, 9 and 13")
 CHECKS["C14"] = dict(
     text=("Proof of the state obligations: pattern_builder restores the module-global builder on normal and exceptional exit (exception "
           "injected at the yield); Converter.__init__ copies the caller's globals; FoldConstantsPass.call resets per-run state; every "
@@ -186,7 +199,7 @@ CHECKS["C18"] = dict(
           "child -> parameter module tree with default names the initializer name equals root.name + '.' + state_dict key, is realised exactly "
           "once in the root graph, idempotently, and the scope stack is balanced also when forward raises. Three known findings (subgraph "
           "counters, explicitly named modules)."),
-    note="Residual: 'the graph computes the trace' needs runtime semantics; _inliner/onnx_ir Cloner, _inference, ModuleList/Sequential naming not under contract.",
+    note="Residual: 'the graph computes the trace' needs runtime semantics; onnx_ir Cloner (behind _inliner.instantiate, which is under contract) and _inference are assumed.",
     design="DESIGN.md section 4 C18 and 9")
 
 NOT_APPLICABLE = {
